@@ -300,6 +300,65 @@ def ob_question_none(run, mir, rp, fam):
     e2.prove(run, ob2, ex, [], conj(claims), {}, fam.as_replay("none-literal:", only=["None-"]))
 
 
+def receiver_family(rp):
+    cls = "class A\n    def x: Int := 1\n    def m(self) -> Int => 1\n"
+    f = e2.Family(rp)
+    f.add("field-of-nullable-variable", cls + "def a: A? := None\ndef y: Int := a.x", "reject")
+    f.add("field-of-nullable-parameter", cls + "def f(a: A?) -> Int => a.x", "reject")
+    f.add("field-of-nullable-assigned", cls + "def a: A? := A()\na.x := 2", "reject")
+    f.add("method-of-nullable-variable", cls + "def a: A? := None\ndef y: Int := a.m()", "reject")
+    f.add("field-of-plain-variable", cls + "def a: A := A()\ndef y: Int := a.x", "accept")
+    f.add("field-of-plain-parameter", cls + "def f(a: A) -> Int => a.x", "accept")
+    f.add("field-of-defaulted-nullable", cls + "def a: A? := None\ndef b: A := a ? A()\ndef y: Int := b.x", "accept")
+    f.add("nullable-field-of-plain-variable", "class B\n    def w: Int? := None\ndef b := B()\ndef y: Int? := b.w", "accept")
+    return f
+
+
+def ob_field_receiver(run, mir, rp, fam):
+    ob = run.ob("field-receiver-non-null", "E2", "field_access (where the unifier resolves `receiver.field`), one iteration of the loop over the receiver's "
+                "classes: a constraint for the field is only queued when that member of the receiver's type is not nullable - `a.x` with a: A? is an "
+                "error (method calls are already refused through their `self` argument)", ["field_access (loop body)"])
+    fn = e2.find1(mir, file="src/check/constrain/unify/function.rs", name="field_access")
+    ex = Exec(mir, max_paths=20000)
+    st = State()
+    args = []
+    for an, aty in fn.args:
+        t = aty.strip()
+        if t == "usize":
+            v = z3.BitVec("total", 64)
+        elif t.startswith("&") and not t.startswith("&[") and t != "&str":
+            v = Ref(ex.new_cell(st, e2.opq(f"a{an}", t.lstrip("&").replace("mut ", "").strip())))
+        else:
+            v = e2.opq(f"a{an}", t)
+        args.append(v)
+    ends = e2.run_kernel(run, ex, fn, args, st)
+    tn = e2.rust_struct("src/check/name/true_name/mod.rs", "TrueName")
+    claims, n = [], 0
+    for p in ends:
+        pushes = e2.calls(p, "Constraints::push")
+        nx = e2.calls(p, "Iterator::next")
+        if not pushes or not nx:
+            continue
+        n += 1
+        s = p.state
+        member = ex.project(s, ex.project(s, nx[-1]["ret"], ("v", "Some")), ("f", 0), "&TrueName")
+        nullable = ex.project(s, member, ("f", tn.index("is_nullable")), "bool")
+        if not z3.is_bool(nullable):
+            raise Unsupported("TrueName::is_nullable is not a boolean term")
+        claims.append(z3.Implies(conj(p.cond), z3.Not(nullable)))
+    if not n:
+        raise Unsupported("no path queues a field constraint")
+    rf = receiver_family(rp)
+    e2.prove(run, ob, ex, [], conj(claims), {}, rf.as_replay("field-receiver:"))
+    if ob.status == "discharged":
+        k, bad = rf.run()
+        run.validated += k
+        if bad:
+            ob.status = "pending"
+            ob.inconclusive(f"receiver family disagrees although the kernel is as specified: {bad[:2]}")
+    run.samples.append({"obligation": ob.id, "queueing_paths": n})
+
+
 def run(run):
     mir = e2.load_mir(run)
     rp = common.Replay()
@@ -313,7 +372,7 @@ def run(run):
     run.bounds = {"paths": "all acyclic paths of each kernel", "inline_depth": 4,
                   "outside": "that every consuming position reaches this comparison; HashSet internals; "
                              "constructor field-assignment analysis"}
-    for f in (ob_true_name_rule, ob_accessors, ob_union, ob_question_none):
+    for f in (ob_true_name_rule, ob_accessors, ob_union, ob_question_none, ob_field_receiver):
         try:
             f(run, mir, rp, fam)
         except Unsupported as e:
